@@ -7,7 +7,7 @@ from hypothesis import strategies as st
 import mido
 import mido.backends._parser_queue as pq_mod
 import mido.ports as ports_mod
-from lib.doubles import KeepPort, WirePort
+from lib.doubles import DirectWirePort, KeepPort, WirePort
 from lib.harness import exc_sig, fail
 from lib.sched import Scheduler
 
@@ -115,6 +115,9 @@ def build_world(prog, sched):
         send = port.send
     elif kind == 'keep':
         port = KeepPort('k')
+        send = port.send
+    elif kind == 'wire-direct':
+        port = DirectWirePort('wd')
         send = port.send
     elif kind == 'ioport-same':
         dev = WirePort('d')
@@ -368,7 +371,7 @@ def nontrivial(case):
 
 def small_programs():
     progs = []
-    for port in ('wire', 'echo', 'keep', 'ioport-same', 'ioport-pair', 'ioport-shared', 'multi', 'multi-yield', 'pqueue'):
+    for port in ('wire', 'wire-direct', 'echo', 'keep', 'ioport-same', 'ioport-pair', 'ioport-shared', 'multi', 'multi-yield', 'pqueue'):
         two = 2 if not port.startswith('multi') else 4
         progs.append({'port': port, 'senders': [1, 1], 'receivers': [{'mode': 'poll', 'quota': two}], 'sysex': True})
         progs.append({'port': port, 'senders': [2], 'receivers': [{'mode': 'poll', 'quota': two // 2},
@@ -378,7 +381,7 @@ def small_programs():
                                                                      {'mode': 'iter_pending', 'quota': two - two // 2}],
                           'mutate': True})
             progs.append({'port': port, 'senders': [1, 1], 'receivers': [{'mode': 'receive', 'quota': two}],
-                          'mutate': True, 'sysex': port in ('wire', 'ioport-pair')})
+                          'mutate': True, 'sysex': port in ('wire', 'wire-direct', 'ioport-pair')})
         if port in ('multi', 'multi-yield'):
             progs.append({'port': port, 'senders': [3], 'receivers': [{'mode': 'poll', 'quota': 3},
                                                                      {'mode': 'poll', 'quota': 3}]})
@@ -473,7 +476,7 @@ def enum_shard(rec, shard):
 
 @st.composite
 def drawn_cases(draw):
-    port = draw(st.sampled_from(['wire', 'echo', 'keep', 'ioport-same', 'ioport-pair', 'ioport-shared', 'multi', 'multi-yield',
+    port = draw(st.sampled_from(['wire', 'wire-direct', 'echo', 'keep', 'ioport-same', 'ioport-pair', 'ioport-shared', 'multi', 'multi-yield',
                                  'pqueue']))
     senders = draw(st.lists(st.integers(1, 3), min_size=1, max_size=3))
     total = sum(senders) * (2 if port.startswith('multi') else 1)
